@@ -70,7 +70,13 @@ def _solve(case, desc, values, times, events):
             out['dose.drug_amount'] = r['dose.drug_amount']
         return out
     return rc.solve(desc, values, times, dosed=case['dosed'], events=events,
-                    depot=case['route'] == 'indirect')
+                    depot=case['route'] == 'indirect', depot_name=depot_of(case))
+
+
+def depot_of(case):
+    # the depot of an indirect route is called 'dose' unless the model has a
+    # compartment of that name itself
+    return 'dose_1' if case['model'] == 'chain2dose' else 'dose'
 
 
 def reg_events(reg, horizon):
@@ -129,7 +135,7 @@ def w_schedule(case):
     names = m.parameters()
     outs = [state(dosed)] if case['model'] != 'lib1' else ['central.drug_amount']
     if not direct:
-        outs = outs + ['dose.drug_amount']
+        outs = outs + [depot_of(case) + '.drug_amount']
     m.set_outputs(outs)
     # the schedule is applied whatever sensitivity switches happened since
     seq = case.get('sens_seq', 'none')
@@ -152,7 +158,7 @@ def w_schedule(case):
                 values[n] = 0.0
             elif n.endswith('.size'):
                 values[n] = case['size']
-            elif n == 'dose.absorption_rate':
+            elif n == depot_of(case) + '.absorption_rate':
                 values[n] = case['k_a']
             else:
                 values[n] = elim if elim == 0.0 else vals.real(
@@ -403,6 +409,11 @@ def w_dataset(case):
     m = chi.library.ModelLibrary().one_compartment_pk_model()
     m.set_administration('central', direct=True)
     ctrl = chi.ProblemModellingController(m, [chi.GaussianErrorModel()])
+    if case.get('fix_first'):
+        # a parameter fixed before the data are given (the controller then holds
+        # the parameter-fixing wrapper around the model)
+        ctrl.fix_parameters({'Sigma': 0.5})
+        ctrl.fix_parameters({'central.size': 1.4})
     rows = []
     for ind in case['inds']:
         for t, v in ind['obs']:
@@ -425,9 +436,35 @@ def w_dataset(case):
     if not case['duration_column']:
         df = df.drop(columns=['Duration'])
         kw['dose_duration_key'] = None
+    if case.get('earlier'):
+        # the controller held another dataset before (the same individuals, all of
+        # them dosed): nothing of it is left
+        erows = []
+        for ind in case['inds']:
+            erows.append({'ID': ind['id'], 'Time': 0.7, 'Observable': 'conc',
+                          'Value': 2.2, 'Dose': np.nan, 'Duration': np.nan})
+            erows.append({'ID': ind['id'], 'Time': 0.2, 'Observable': np.nan,
+                          'Value': np.nan, 'Dose': 5.0, 'Duration': 0.3})
+        ctrl.set_data(pd.DataFrame(erows), output_observable_dict={
+            'central.drug_concentration': 'conc'})
+    if case.get('earlier') == 'nodose':
+        # ... and the final dataset carries no dose information at all
+        df = df[df['Dose'].isna()].drop(columns=[
+            c_ for c_ in ('Dose', 'Duration') if c_ in df.columns])
+        kw = {'dose_key': None, 'dose_duration_key': None}
+        case = dict(case)
+        case['inds'] = [dict(i_, doses=[]) for i_ in case['inds']]
     ctrl.set_data(df, output_observable_dict={
         'central.drug_concentration': 'conc'}, **kw)
     regs = ctrl.get_dosing_regimens()
+    if case.get('earlier') == 'nodose':
+        if regs is not None and any(len(r_.events()) for r_ in regs.values()):
+            viol.append({'sub': 'stale', 'message': 'regimens of an earlier dataset '
+                         'are reported for a dataset without dose information',
+                         'expected': 'none', 'observed': {
+                             k_: len(r_.events()) for k_, r_ in regs.items()},
+                         'behaviour': 'dataset_stale'})
+        regs = {str(i_['id']): myokit.Protocol() for i_ in case['inds']}
     for ind in case['inds']:
         key = str(ind['id'])
         if key not in regs:
@@ -451,13 +488,14 @@ def w_dataset(case):
     ctrl.set_log_prior(pints.ComposedLogPrior(*[
         pints.UniformLogPrior(0, 10) for _ in range(ctrl.get_n_parameters())]))
     x = [0.3, 1.4, 0.8, 0.5]
+    x_ctrl = [0.3, 0.8] if case.get('fix_first') else x
     order = [str(i['id']) for i in case['inds']]
     vals_seen = {}
     for key in order + order[::-1]:
         ind = [i for i in case['inds'] if str(i['id']) == key][0]
         post = ctrl.get_log_posterior(key)
         ll = post.get_log_likelihood()
-        got = ll(x)
+        got = ll(x_ctrl)
         f = chi.library.ModelLibrary().one_compartment_pk_model()
         f.set_administration('central', direct=True)
         p = myokit.Protocol()
@@ -517,6 +555,8 @@ def build(tier, seed):
     targets = [('lib1', 'central', {})]
     targets += [('chain2', 'zeta', {'cp': [1, 0], 'sp': [0, 1]}),
                 ('chain2', 'alpha', {'cp': [0, 1], 'sp': [1, 0]})]
+    targets += [('chain2dose', 'dose', {'cp': [1, 0], 'sp': [0, 1]}),
+                ('chain2dose', 'alpha', {})]
     if tier == 'thorough':
         targets += [('mam3', c, {'cp': [2, 0, 1], 'sp': [1, 2, 0]})
                     for c in ('mid', 'zeta', 'alpha')]
@@ -555,6 +595,17 @@ def build(tier, seed):
         table.append({'reg': reg, 'route': 'direct', 'final_times': ft})
         table.append({'reg': reg, 'route': 'direct', 'final_times': ft,
                       'fixed_first': True})
+    # periods / starts that are not exactly representable: the number of listed
+    # doses is the number asked for
+    for start in (1.0, 0.7):
+        for per in (0.1, 0.3, 0.7, 1.1):
+            for num in (3, 4, 7):
+                reg = {'kind': 'regimen', 'dose': 1.0, 'start': start,
+                       'duration': 0.05, 'period': per, 'num': num}
+                table.append({'reg': reg, 'route': 'direct', 'sample_rows': False,
+                              'final_times': [None, start + (num - 1) * per,
+                                              start + num * per,
+                                              start + (num + 2) * per]})
     wrapped = []
     wregs = regimens('thorough')
     if tier == 'quick':
@@ -580,8 +631,13 @@ def build(tier, seed):
                 if ids == [1, 2]:
                     data.append({'inds': inds, 'duration_column': dcol,
                                  'same_row': True})
-    if tier == 'quick':
-        data = data[::2]
+                    data.append({'inds': inds, 'duration_column': dcol,
+                                 'fix_first': True})
+                    if dcol:
+                        data.append({'inds': inds, 'duration_column': dcol,
+                                     'earlier': 'with'})
+                        data.append({'inds': inds, 'duration_column': dcol,
+                                     'earlier': 'nodose'})
     return {
         'parts': [
             Part('schedule', sched, w_schedule,
